@@ -128,6 +128,9 @@ func (s Shape) Text() string {
 		return "((fn () " + s.Sub.Text() + "))"
 	case "if":
 		return "(if true " + s.Sub.Text() + " 0)"
+	case "future":
+		// evaluated in a future the program waits for
+		return "(deref (future " + s.Sub.Text() + "))"
 	case "retry":
 		// the retry idiom: the handler re-enters the function in tail position; the first attempt uses up 30% of
 		// the time and throws, the second one is the long-running one, its handler is quick
@@ -155,6 +158,26 @@ func (s Shape) outcome() string {
 		return "handler"
 	}
 	return s.Sub.outcome()
+}
+
+// endsAtDeadline: the shape only comes to an end because the deadline (or the try budget of an ENCLOSING try)
+// cuts it; false when a quick handler and at most a quick finally decide its outcome before that
+func (s Shape) endsAtDeadline() bool {
+	switch s.Kind {
+	case "kernel":
+		return true
+	case "try":
+		if s.Finally == "sleep" || s.Finally == "loop" {
+			return true
+		}
+		if !s.Sub.endsAtDeadline() {
+			return false
+		}
+		return !(s.Catch == "quick" || s.Catch == "quick2")
+	case "retry":
+		return false
+	}
+	return s.Sub.endsAtDeadline()
 }
 
 func (s Shape) depthTry() int {
@@ -210,6 +233,10 @@ func genShape(t *rapid.T, d int) Shape {
 	case 6:
 		return Shape{Kind: "call", Sub: &sub}
 	}
+	if gen.Uniform(t, "infuture", 3) == 0 && !sub.endsAtDeadline() {
+		// (a future that only ends with the deadline races with the deref that waits for it: not judged)
+		return Shape{Kind: "future", Sub: &sub}
+	}
 	if sub.outcome() == "timeout" && gen.Uniform(t, "retry", 2) == 0 {
 		return Shape{Kind: "retry", Sub: &sub}
 	}
@@ -253,6 +280,10 @@ func runOnce(c Case, millis int) result {
 	})
 	if r := box.ReadEval(bg, defs, e); r.Err != nil || r.Panicked {
 		panic(fmt.Sprintf("defs: %v %v", r.Err, r.PanicVal))
+	}
+	// the embedder's set-up code has used the context-taking builtins before, under a context that never ends
+	if r := box.ReadEval(bg, "(do (sleep 1) (map (fn (x) x) [1]) (apply + [1 2]) (deref (atom 1)) (swap! (atom 1) + 1) (update {:a 1} :a (fn (x) x)) (reduce + 0 [1]) (deref (future 1)) (eval 1))", e); r.Err != nil || r.Panicked {
+		panic(fmt.Sprintf("set-up: %v %v", r.Err, r.PanicVal))
 	}
 	// a future created by an EARLIER evaluation under a context that stays alive
 	if c.Shape.kernel() == "earlier-future" {
